@@ -172,9 +172,8 @@ def setS (l : Led) (k : Key) (v : Option Val) : Led :=
       | none => KV.erase l.store k
     journal := Change.storage k (KV.get l.store k) :: l.journal }
 
-/-- non-journaled write (`AddState`) -/
-def addS (l : Led) (k : Key) (v : Val) : Led :=
-  { l with store := KV.set l.store k v }
+/-- `AddState`: since the `fix:` commit "journal AddState" it records a change like `SetState` -/
+def addS (l : Led) (k : Key) (v : Val) : Led := l.setS k (some v)
 
 def getBal (l : Led) (a : String) : Int := KV.getD l.bal a 0
 
